@@ -101,6 +101,17 @@ def run(prop, tier):
     trace = os.path.join(common.OUT, "gradual_trace_%s_%s_%d.ndjson" % (prop, tier, os.getpid()))
     p = common.run_harness(binp, ["gradual-record", trace, "--tier", tier])
     log(p.stdout.strip().splitlines()[-1])
+    # differential on the recorded maps (fixture windows, converts, random and tangled timelines; longer than the model's maps):
+    # C02 - i-th gradual value = one-shot on the prefix; C03 - i-th gradual performance (Difficulty with a stale passed_objects)
+    # = one-shot performance on the prefix
+    vals = json.load(open(trace + ".values.json"))
+    os.remove(trace + ".values.json")
+    res.cov["recorded_map_value_checks"] = vals["checks"]
+    want_api = {"C02": "diff", "C03": "perf"}.get(prop)
+    for rec in vals["records"]:
+        if rec["api"] == want_api or (rec["what"] in ("panic", "machinery") and prop == "C02"):
+            res.violation("recorded map: %s %s at prefix %s: %s: expected %s observed %s" % (rec["api"], rec["what"], rec.get("i"), rec["label"], str(rec.get("expected"))[:300], str(rec.get("observed"))[:300]),
+                          {"kind": "gradual-values", "record": rec})
 
     def corrupt(events):
         idx = [i for i, e in enumerate(events) if e["ev"] == "call" and e.get("some")]
